@@ -4,6 +4,10 @@ import Mathlib.Algebra.BigOperators.Ring.Finset
 import Mathlib.Tactic.Ring
 import Mathlib.Tactic.LinearCombination
 import Mathlib.Tactic.NormNum
+import Mathlib.LinearAlgebra.Matrix.Rank
+import Mathlib.LinearAlgebra.Matrix.ToLin
+import Mathlib.Tactic.FinCases
+import Mathlib.Algebra.Order.Field.Rat
 
 /-!
 # C08 — constrained forward dynamics satisfies the constraints and Newton's law
@@ -93,16 +97,57 @@ theorem consistent_of_right_inverse {m n : Nat} (minv : Vec K n → Vec K n) (pi
     (G : Mat K m n) (f : Vec K n) (b : Vec K m) (hA : ∀ r, gMinvGt minv G (pinv r) = r) :
     ∃ y, gMinvGt minv G y = (loopFD minv pinv G f b).rhs := ⟨pinv _, hA _⟩
 
-/-- disabled constraints have no effect: the operator reads only the enabled rows, so any two systems that agree on
-the enabled rows (whatever the disabled constraints are, or whether they exist at all) give the same result -/
-theorem disabled_no_effect {m m' ma n : Nat} (act : Fin ma → Fin m) (act' : Fin ma → Fin m')
-    (minv : Vec K n → Vec K n) (pinv : Vec K ma → Vec K ma)
-    (G : Mat K m n) (G' : Mat K m' n) (b : Vec K m) (b' : Vec K m') (f : Vec K n)
-    (hG : ∀ k, G (act k) = G' (act' k)) (hb : ∀ k, b (act k) = b' (act' k)) :
-    loopFD minv pinv (activeRows act G) f (activeVec act b) = loopFD minv pinv (activeRows act' G') f (activeVec act' b') := by
-  have h1 : activeRows act G = activeRows act' G' := by funext k; exact hG k
-  have h2 : activeVec act b = activeVec act' b' := by funext k; exact hb k
-  rw [h1, h2]
+
+/-! ### disabled constraints: the assembly filter of the executed model -/
+section asm
+variable {α : Type}
+
+theorem assemble_insert_disabled (en1 en2 : List Bool) (r1 r2 : List α) (x : α) (h : en1.length = r1.length) :
+    assemble (en1 ++ false :: en2) (r1 ++ x :: r2) = assemble (en1 ++ en2) (r1 ++ r2) := by
+  simp only [assemble, List.zip_append h, List.zip_cons_cons, List.filter_append, List.filter_cons]
+  simp
+
+theorem assemble_congr (en : List Bool) (r r' : List α) (hl : r.length = r'.length)
+    (h : ∀ i, en.getD i false = true → r[i]? = r'[i]?) : assemble en r = assemble en r' := by
+  induction en generalizing r r' with
+  | nil => simp [assemble]
+  | cons e es ih =>
+    cases r with
+    | nil => cases r' with
+      | nil => rfl
+      | cons y ys => simp at hl
+    | cons x xs => cases r' with
+      | nil => simp at hl
+      | cons y ys =>
+        have ht : assemble es xs = assemble es ys := ih xs ys (by simpa using hl) (fun i hi => by simpa using h (i + 1) (by simpa using hi))
+        cases e with
+        | false => simpa [assemble] using ht
+        | true =>
+          have hx : x = y := by simpa using h 0 (by simp)
+          simp only [assemble] at ht ⊢
+          simp [hx, ht]
+end asm
+
+/-- **disabled constraints have no effect**: deleting a disabled constraint equation (row `x` of `G`, entry `y` of `b`,
+wherever it sits in the list of all constraint equations) leaves every result of the forward-dynamics operator unchanged.
+About the executed `loopFDList` (the driver runs it on the full constraint matrix exported with all constraints enabled,
+plus the mask, and must reproduce the masked system's `udot`, `λ`). -/
+theorem disabled_no_effect {n : Nat} (minv : Vec K n → Vec K n) (pinv : (m : Nat) → Mat K m n → Vec K m → Vec K m)
+    (en1 en2 : List Bool) (r1 r2 : List (List K)) (x : List K) (b1 b2 : List K) (y : K) (f : Vec K n)
+    (hr : en1.length = r1.length) (hb : en1.length = b1.length) :
+    loopFDList minv pinv (en1 ++ false :: en2) (r1 ++ x :: r2) (b1 ++ y :: b2) f
+      = loopFDList minv pinv (en1 ++ en2) (r1 ++ r2) (b1 ++ b2) f := by
+  unfold loopFDList
+  rw [assemble_insert_disabled en1 en2 r1 r2 x hr, assemble_insert_disabled en1 en2 b1 b2 y hb]
+
+/-- the data of disabled constraints is never read -/
+theorem disabled_data_irrelevant {n : Nat} (minv : Vec K n → Vec K n) (pinv : (m : Nat) → Mat K m n → Vec K m → Vec K m)
+    (en : List Bool) (r r' : List (List K)) (b b' : List K) (f : Vec K n)
+    (hlr : r.length = r'.length) (hlb : b.length = b'.length)
+    (hr : ∀ i, en.getD i false = true → r[i]? = r'[i]?) (hb : ∀ i, en.getD i false = true → b[i]? = b'[i]?) :
+    loopFDList minv pinv en r b f = loopFDList minv pinv en r' b' f := by
+  unfold loopFDList
+  rw [assemble_congr en r r' hlr hr, assemble_congr en b b' hlb hb]
 
 /-- workless constraints: the constraint power `−⟪~Gλ, u⟫` equals `−⟪λ, G u⟫`, hence vanishes whenever the
 (homogeneous) velocity errors `G u` are zero -/
@@ -112,6 +157,85 @@ theorem power_eq {m n : Nat} (G : Mat K m n) (lam : Vec K m) (u : Vec K n) : pow
 theorem workless_power_zero {m n : Nat} (G : Mat K m n) (lam : Vec K m) (u : Vec K n)
     (hverr : mulVec G u = fun _ => 0) : power G lam u = 0 := by
   rw [power_eq, hverr, dot_eq]; simp
+
+
+/-! ### consistency in the property's sense (`b ∈ range G`) discharges the hypothesis of `aerr_zero_of_consistent` -/
+section bridge
+variable {F : Type} [Field F] {m n : Nat}
+open Matrix
+
+/-- `range (G W ~G) = range G` when `W` (= `M⁻¹`) is definite (`x·Wx = 0 → x = 0`, true for the inverse of an SPD mass
+matrix over an ordered field): so a redundant but consistent constraint set (`b = G x₀`) always has
+`rhs = G udot0 − b ∈ range (G M⁻¹ ~G)` -/
+theorem range_GWGt (G : Matrix (Fin m) (Fin n) F) (W : Matrix (Fin n) (Fin n) F)
+    (hW : ∀ x : Fin n → F, x ⬝ᵥ (W *ᵥ x) = 0 → x = 0) :
+    LinearMap.range (G * W * Gᵀ).mulVecLin = LinearMap.range G.mulVecLin := by
+  have e : ∀ y, (G * W * Gᵀ) *ᵥ y = G *ᵥ (W *ᵥ (Gᵀ *ᵥ y)) := by
+    intro y; simp only [Matrix.mulVec_mulVec, Matrix.mul_assoc]
+  have hle : LinearMap.range (G * W * Gᵀ).mulVecLin ≤ LinearMap.range G.mulVecLin := by
+    rintro _ ⟨y, rfl⟩
+    exact ⟨W *ᵥ (Gᵀ *ᵥ y), by simp only [Matrix.mulVecLin_apply, e]⟩
+  have hker : LinearMap.ker (G * W * Gᵀ).mulVecLin = LinearMap.ker Gᵀ.mulVecLin := by
+    ext y
+    simp only [LinearMap.mem_ker, Matrix.mulVecLin_apply]
+    constructor
+    · intro h
+      apply hW
+      have h0 : y ⬝ᵥ ((G * W * Gᵀ) *ᵥ y) = 0 := by rw [h]; simp
+      rw [e, Matrix.dotProduct_mulVec, ← Matrix.mulVec_transpose] at h0
+      exact h0
+    · intro h
+      rw [e, h]; simp
+  have h1 := LinearMap.finrank_range_add_finrank_ker (G * W * Gᵀ).mulVecLin
+  have h2 := LinearMap.finrank_range_add_finrank_ker Gᵀ.mulVecLin
+  have h3 : Module.finrank F (LinearMap.range Gᵀ.mulVecLin) = Module.finrank F (LinearMap.range G.mulVecLin) := by
+    have := Matrix.rank_transpose G
+    simpa [Matrix.rank] using this
+  rw [hker] at h1
+  exact Submodule.eq_of_le_of_finrank_eq hle (by omega)
+
+/-- the consistency hypothesis of `aerr_zero_of_consistent`, from `b ∈ range G` -/
+theorem consistent_of_range_G (G : Matrix (Fin m) (Fin n) F) (W : Matrix (Fin n) (Fin n) F)
+    (hW : ∀ x : Fin n → F, x ⬝ᵥ (W *ᵥ x) = 0 → x = 0) (f : Fin n → F) (b : Fin m → F)
+    (hb : ∃ x0, G *ᵥ x0 = b) : ∃ y, (G * W * Gᵀ) *ᵥ y = G *ᵥ (W *ᵥ f) - b := by
+  obtain ⟨x0, rfl⟩ := hb
+  have hmem : G *ᵥ (W *ᵥ f) - G *ᵥ x0 ∈ LinearMap.range G.mulVecLin :=
+    ⟨W *ᵥ f - x0, by simp [Matrix.mulVec_sub]⟩
+  rw [← range_GWGt G W hW] at hmem
+  obtain ⟨y, hy⟩ := hmem
+  exact ⟨y, by simpa only [Matrix.mulVecLin_apply] using hy⟩
+
+theorem mulVec_eq (A : Matrix (Fin m) (Fin n) F) (x : Fin n → F) : mulVec A x = A *ᵥ x := by
+  funext i; exact (mulVec_apply (K := F) A x i).trans (by simp [Matrix.mulVec, dotProduct])
+theorem tmulVec_eq (A : Matrix (Fin m) (Fin n) F) (y : Fin m → F) : tmulVec A y = Aᵀ *ᵥ y := by
+  funext j; exact (tmulVec_apply (K := F) A y j).trans (by simp [Matrix.mulVec, dotProduct, Matrix.transpose_apply])
+
+/-- **the acceleration constraints hold for every consistent constraint set, redundant or not**: `M⁻¹ = W` definite,
+`pinv` a generalized inverse of `G W ~G` on its range, and consistency in the property's own sense `b ∈ range G`
+⇒ `G udot = b` for the executed `loopFD` -/
+theorem constraints_satisfied_of_range_G (G : Matrix (Fin m) (Fin n) F) (W : Matrix (Fin n) (Fin n) F)
+    (pinv : (Fin m → F) → (Fin m → F)) (f : Fin n → F) (b : Fin m → F)
+    (hW : ∀ x : Fin n → F, x ⬝ᵥ (W *ᵥ x) = 0 → x = 0)
+    (hpinv : ∀ y, gMinvGt (mulVec W) G (pinv (gMinvGt (mulVec W) G y)) = gMinvGt (mulVec W) G y)
+    (hb : ∃ x0, mulVec G x0 = b) :
+    mulVec G (loopFD (mulVec W) pinv G f b).udot = b := by
+  apply constraints_satisfied (mulVec W) pinv G f b (fun x y => mulVec_vsub W x y) hpinv
+  obtain ⟨x0, hx0⟩ := hb
+  obtain ⟨y, hy⟩ := consistent_of_range_G G W hW f b ⟨x0, by rw [← mulVec_eq]; exact hx0⟩
+  refine ⟨y, ?_⟩
+  simp only [gMinvGt, loopFD, mulVec_eq, tmulVec_eq]
+  have e : G *ᵥ (W *ᵥ (Gᵀ *ᵥ y)) = (G * W * Gᵀ) *ᵥ y := by simp only [Matrix.mulVec_mulVec, Matrix.mul_assoc]
+  rw [e, hy]; rfl
+
+/-- non-vacuity of the definiteness hypothesis: `W = 1` over ℚ -/
+example : ∀ x : Fin 2 → ℚ, x ⬝ᵥ ((1 : Matrix (Fin 2) (Fin 2) ℚ) *ᵥ x) = 0 → x = 0 := by
+  intro x h
+  simp only [Matrix.one_mulVec, dotProduct, Fin.sum_univ_two] at h
+  have h' := mul_self_add_mul_self_eq_zero.mp h
+  funext i; fin_cases i
+  · exact h'.1
+  · exact h'.2
+end bridge
 
 /-! ### non-vacuity: a 1-constraint, 2-dof example over ℚ with `M = I`, `G = [1 1]` -/
 example : ∃ (minv : Vec ℚ 2 → Vec ℚ 2) (pinv : Vec ℚ 1 → Vec ℚ 1) (G : Mat ℚ 1 2),
